@@ -59,6 +59,10 @@ pub struct Config {
     /// racing memory could really be freed; the channel harness serialises physically and can go
     /// on, so that the consequences reach the other oracles)
     pub abort_on_cell_race: bool,
+    /// run-length factor of the byte schedule: a zero byte ("keep running") stands for this many
+    /// consecutive choices, a non-zero byte for one. Lets a short, shrinkable schedule place its
+    /// preemptions anywhere in a run of thousands of points (0 and 1 mean no stretching).
+    pub stretch: u8,
 }
 
 impl Default for Config {
@@ -72,6 +76,7 @@ impl Default for Config {
             abort_unwind: false,
             script: vec![],
             abort_on_cell_race: true,
+            stretch: 1,
         }
     }
 }
@@ -214,6 +219,7 @@ struct Cells {
 struct State {
     cfg: Config,
     cursor: usize,
+    zero_run: u32,
     nthreads: usize,
     threads: Vec<Th>,
     cur: usize,
@@ -342,6 +348,11 @@ impl State {
     fn next_byte(&mut self) -> u8 {
         if self.cursor < self.cfg.schedule.len() {
             let b = self.cfg.schedule[self.cursor];
+            if b == 0 && self.zero_run + 1 < self.cfg.stretch.max(1) as u32 {
+                self.zero_run += 1;
+                return 0;
+            }
+            self.zero_run = 0;
             self.cursor += 1;
             b
         } else {
@@ -531,6 +542,7 @@ impl Exec {
             m: Mutex::new(State {
                 cfg,
                 cursor: 0,
+                zero_run: 0,
                 nthreads,
                 threads,
                 cur: usize::MAX,
